@@ -10,7 +10,7 @@ TEXT = ("matcher_exact (the derivative matcher decides the language of ANY expre
         "equality with the hand-written recognisers is established by exhaustive comparison on all strings up to a length bound over a position-specific alphabet "
         "— that part is a test, labelled as such — which also validates the translator and the Re semantics against RE2 (match AND capture groups). Validation "
         "as a whole is compared model-vs-implementation on mutated valid forms, wrong YAML node kinds in every position and k-subsets of simultaneous defects, "
-        "and each injected defect must be named in the diagnostics.")
+        "and each injected defect must be named in the diagnostics. The custom YAML unmarshalers are modelled too (Model/Decode.lean): tag_shapes, call_shapes, scope_keywords (keyword table regenerated from input_scope.go) and shapes_roundtrip are theorems, tied by decoding generated node trees on both sides; getters_unique: an accepted input has pairwise distinct live getters.")
 TECHNIQUE = "Lean 4 theorems (Brzozowski-derivative matcher correctness, language = recogniser for the name grammars, exactness of validators) + exhaustive bounded string comparison (RE2 vs model vs hand-written recognisers) + defect-subset correspondence"
 LEAN_PROPS = ["C11", "Pins"]
 TRUSTED = ["regexp (RE2) agrees with Re.Lang / leftmost-first captures on the extracted patterns: checked on every enumerated string", "composite forms: recogniser = language only up to the enumerated length (test, not theorem)"]
@@ -279,6 +279,34 @@ def run(ctx):
         errs = a.get("errs") or []
         if len(errs) != nerr:
             violations.append({"sig": "todo-not-exempt", "what": "%s: expected %d diagnostic(s), got %r" % (label, nerr, errs), "files": [gen.yaml_doc(cfg)]})
+    # the verdict on a string depends on the POSITION it stands in, not on the string: the same text accepted in a permissive
+    # position (tag, parameter or service name, value/type form) earlier in the run must still be rejected in a strict one
+    reuse = [
+        ("tag-then-method", "audit.log", {"a": {"constructor": "N", "tags": ["audit.log"]}, "b": {"constructor": "N", "calls": [["audit.log", []]]}}, None),
+        ("tag-then-field", "x-y", {"a": {"constructor": "N", "tags": ["x-y"]}, "b": {"constructor": "N", "fields": {"x-y": 1}}}, None),
+        ("tag-then-getter", "a.b", {"a": {"constructor": "N", "tags": ["a.b"]}, "b": {"constructor": "N", "getter": "a.b"}}, None),
+        ("service-name-then-constructor", "my-svc", {"my-svc": {"constructor": "N"}, "z": {"constructor": "my-svc"}}, None),
+        ("value-then-constructor", "&pkg.V", {"a": {"value": "&pkg.V"}, "b": {"constructor": "&pkg.V"}}, None),
+        ("type-then-getter", "*pkg.T", {"a": {"constructor": "N", "type": "*pkg.T"}, "b": {"constructor": "N", "getter": "*pkg.T"}}, None),
+        ("param-name-then-pkg", "p.q", {"a": {"constructor": "N"}}, {"pkg": "p.q"}),
+        ("method-then-tag (strict first, permissive later)", "Ok1", {"a": {"constructor": "N", "calls": [["Ok1", []]]}, "b": {"constructor": "N", "tags": ["Ok1"]}}, "accept"),
+    ]
+    for label, text, svcs, extra in reuse:
+        cfg = {"services": svcs}
+        if isinstance(extra, dict):
+            cfg["meta"] = extra
+            cfg["parameters"] = {text: 1}
+        a, b, d = corr.compile_pair(ctx, [gen.yaml_doc(cfg)])
+        dist["defect_sets"] += 1
+        for x in d[:1]:
+            if len(corr_fail) < 10:
+                corr_fail.append({"op": "compile:" + x[0], "files": [gen.yaml_doc(cfg)], "impl": x[1], "model": x[2]})
+        errs = a.get("errs") or []
+        if extra == "accept":
+            if errs:
+                violations.append({"sig": "position-independent-verdict", "what": "%s: %r is valid in both positions but %r is reported" % (label, text, errs), "files": [gen.yaml_doc(cfg)]})
+        elif not errs:
+            violations.append({"sig": "position-independent-verdict", "what": "%s: %r is valid in the first position only, yet the configuration is accepted" % (label, text), "files": [gen.yaml_doc(cfg)]})
     # the rules judge the MERGED configuration: the same tag given to a service by two files is a duplicate (whatever the
     # priorities), and it is reported next to an independent violation of another file
     mf = [gen.yaml_doc({"services": {"a": {"constructor": "N", "tags": ["h"]}}}),
